@@ -48,7 +48,7 @@ class C14(Prop):
     id = 'C14'
     title = "Signed messages verify for the signer's address and for nothing else"
     lean_targets = ['BtcVerif.Props.C14']
-    table_groups = ['Chain']
+    table_groups = ['ChainAddr']
     theorems = ['BtcVerif.C14.' + t for t in (
         'serVarInt_eq_compactSize', 'serBytes_eq_varBytes', 'msg_digest_eq_spec', 'msg_digest_text', 'magic_prefix',
         'msg_digest_too_long', 'headerByte_eq_spec', 'header_range', 'header_roundtrip', 'headerDecode_eq_spec',
